@@ -42,6 +42,7 @@ def run(tier):
         for p in _drv.PRECS:
             misc.drop_row_alignment(chk, 'C03.droprow', prog, p, cfgname)
             misc.hole_fill_rule(chk, 'C03.droprow', prog, p, cfgname)
+            misc.droprow_pointer_fixup_rule(chk, 'C03.droprow', prog, p, cfgname)
         n = 0
         for p in _drv.PRECS:
             n += factor_tail.run(chk, 'C03.D1', prog, p, cfgname)
